@@ -122,6 +122,86 @@ func xconvCases() []xconvCase {
 	}
 }
 
+// jointPatterns strips the "|drop=" suffixes and removes duplicate patterns.
+func jointPatterns(pkgs []string) []string {
+	seen := map[string]bool{}
+	var out []string
+	for _, p := range pkgs {
+		if k := strings.Index(p, "|drop="); k >= 0 {
+			p = p[:k]
+		}
+		if !seen[p] {
+			seen[p] = true
+			out = append(out, p)
+		}
+	}
+	return out
+}
+
+// roleLeakCases: two goverter:variables blocks in two files of one package name the same function of another package
+// in two roles (map|FUNC, default, extend). What is acceptable for one role (generic, no source parameter) must still be
+// judged for the other role: the joint run fails iff one of the blocks fails on its own.
+func roleLeakCases() []xconvCase {
+	fns := `package sh
+
+type In struct {
+	Name string
+	Age  int
+}
+type Out struct {
+	Name string
+	Age  int
+}
+
+func OkS(s string) string         { return s + "!" }
+func OkO(s In) Out                { return Out{Name: s.Name} }
+func GenericS[X any](s X) X       { return s }
+func GenericO[X any](s X) Out     { return Out{} }
+func NosrcS() string              { return "n" }
+func NosrcO() Out                 { return Out{} }
+func ErrS(s string) (string, error) { return s, nil }
+func ErrO(s In) (Out, error)      { return Out{}, nil }
+func TwoS(a string, b string) string { return a + b }
+func TwoO(a In, b In) Out         { return Out{} }
+`
+	unit := func(file, varName, role, fn string) string {
+		conv, meth := "", ""
+		switch role {
+		case "map":
+			meth = "\t// goverter:map Name | vx/sh:" + fn + "\n"
+		case "default":
+			meth = "\t// goverter:default vx/sh:" + fn + "\n"
+		case "extend":
+			conv = "// goverter:extend vx/sh:" + fn + "\n"
+		}
+		return "package pa\n\nimport \"vx/sh\"\n\n// goverter:variables\n" + conv + "var (\n" + meth + "\t" + varName + " func(source sh.In) sh.Out\n)\n"
+	}
+	var out []xconvCase
+	for _, kind := range []string{"Ok", "Generic", "Nosrc", "Err", "Two"} {
+		for _, flavour := range []struct {
+			sfx   string
+			roles []string
+		}{{"S", []string{"map", "extend"}}, {"O", []string{"default", "extend"}}} {
+			for _, ra := range flavour.roles {
+				for _, rb := range flavour.roles {
+					fn := kind + flavour.sfx
+					out = append(out, xconvCase{
+						name: fmt.Sprintf("role-leak-%s-%s-then-%s", fn, ra, rb),
+						files: map[string]string{
+							"sh/sh.go": fns,
+							"pa/a.go":  unit("a", "ConvA", ra, fn),
+							"pa/b.go":  unit("b", "ConvB", rb, fn),
+						},
+						pkgs:         []string{"./pa|drop=pa/b.go", "./pa|drop=pa/a.go"},
+						sharedOutput: true,
+					})
+				}
+			}
+		}
+	}
+	return out
+}
+
 func (c xconvCase) tree() fshist.Tree {
 	t := fshist.Tree{"go.mod": {Data: []byte("module vx\n\ngo 1.22\n"), Mode: 0o644}}
 	for p, s := range c.files {
@@ -151,7 +231,7 @@ func RunXConvFiltered(run *ev.Run, prefix string) int {
 	var wg sync.WaitGroup
 	sem := make(chan bool, nWorkers)
 	nruns := 0
-	for ci, c := range xconvCases() {
+	for ci, c := range append(xconvCases(), roleLeakCases()...) {
 		if !strings.HasPrefix(c.name, prefix) {
 			continue
 		}
@@ -161,7 +241,9 @@ func RunXConvFiltered(run *ev.Run, prefix string) int {
 			defer wg.Done()
 			defer func() { <-sem }()
 			t := c.tree()
-			gen := func(tag string, pats []string) (fshist.Tree, *fshist.Run) {
+			var genIn func(tag string, pats []string, t fshist.Tree) (fshist.Tree, *fshist.Run)
+			gen := func(tag string, pats []string) (fshist.Tree, *fshist.Run) { return genIn(tag, pats, t) }
+			genIn = func(tag string, pats []string, t fshist.Tree) (fshist.Tree, *fshist.Run) {
 				dir := filepath.Join(base, fmt.Sprintf("x%d-%s", ci, tag))
 				after, r, err := fshist.RunIn(bin, t, dir, "", nil, append([]string{"gen"}, pats...)...)
 				if err == nil && r.Exit == 0 {
@@ -186,11 +268,19 @@ func RunXConvFiltered(run *ev.Run, prefix string) int {
 			aloneExit := map[string]int{}
 			anyFail := false
 			for i, p := range c.pkgs {
-				after, r := gen(fmt.Sprint("alone", i), []string{p})
+				// "pattern|drop=f1,f2": this unit shares its package with a sibling; alone means without the sibling's files
+				pat, at := p, t
+				if k := strings.Index(p, "|drop="); k >= 0 {
+					pat, at = p[:k], t.Clone()
+					for _, f := range strings.Split(p[k+6:], ",") {
+						delete(at, f)
+					}
+				}
+				after, r := genIn(fmt.Sprint("alone", i), []string{pat}, at)
 				if after == nil {
 					return
 				}
-				created, changed, _ := fshist.Diff(t, after)
+				created, changed, _ := fshist.Diff(at, after)
 				files := map[string][]byte{}
 				for _, f := range append(created, changed...) {
 					if !after[f].Dir {
@@ -206,7 +296,7 @@ func RunXConvFiltered(run *ev.Run, prefix string) int {
 				nruns++
 				mu.Unlock()
 			}
-			for oi, order := range permutations(c.pkgs) {
+			for oi, order := range permutations(jointPatterns(c.pkgs)) {
 				after, r := gen(fmt.Sprint("joint", oi), order)
 				if after == nil {
 					return
